@@ -18,7 +18,7 @@ ID = 'C05'
 
 MANIFEST = {
     'engine': 'symx',
-    'text': 'Two solver-based parts. (1) Dispatch/orientation: the real mixed_rank_graph -> get_importances_estimate_pairwise -> generate_data_for_ranking -> conduct_feature_ranking -> numba_mi chain runs on real pandas frames whose feature cells (incl. empty string, unicode, digit strings), heuristic name (every documented non-surrogate name, re-collected from README/docs/examples/scripts/benchmarks on every run), mode and label position are symbolic; numba and max-value-coverage leaves stay REAL and each emitted score is compared with an independent recomputation on the raw column contents (plug-in MI, displaced-copy corrected score, largest joint-value frequency), sklearn/scipy leaves are opaque recorders whose arguments must be the injectively coded columns with the label as second argument; no documented name may fall through to the "not defined" constant. (2) max_pair_coverage itself is executed symbolically on symbolic code vectors (with the integer width the pipeline passes) and z3 shows result == max joint-pair count / n; a separate z3 query searches for two different code pairs that the pair-hash identifies.',
+    'text': 'Two solver-based parts. (1) Dispatch/orientation: the real mixed_rank_graph -> get_importances_estimate_pairwise -> generate_data_for_ranking -> conduct_feature_ranking -> numba_mi chain runs on real pandas frames whose feature cells (incl. empty string, unicode, digit strings), heuristic name (every documented non-surrogate name, re-collected from README/docs/examples/scripts/benchmarks on every run), mode and label position are symbolic; numba and max-value-coverage leaves stay REAL and each emitted score is compared with an independent recomputation on the raw column contents (plug-in MI, displaced-copy corrected score, largest joint-value frequency), sklearn/scipy leaves are opaque recorders whose arguments must be the injectively coded columns with the label as second argument; no documented name may fall through to the "not defined" constant. (2) max_pair_coverage itself is executed symbolically on symbolic code vectors (with the integer width the pipeline passes) and z3 shows result == max joint-pair count / n; a separate z3 query searches for two different code pairs that the pair-hash identifies. A further condition runs a history of two mini-batches in one process and checks the second batch against its own columns.',
     'note': 'What sklearn mutual_info_classif / adjusted_mutual_info_score / scipy pearsonr compute is trusted (FFI); surrogate heuristics excluded by the statement; frames of 4 rows x 3 columns; max_pair_coverage vectors n<=3 (quick) / 4 (thorough) with codes < 2^15.',
     'technique': 'solver-driven bounded exploration of the real dispatch chain + symbolic execution of max_pair_coverage with z3 (integer arithmetic modulo 10^6 / fixed-width wrap)',
 }
